@@ -359,3 +359,17 @@ Lemma until_null_leaves_loop :
   (exists st, exec 40 until_null_prog (init_state [] []) = (ONormal, st) /\ assocN 0%N (users st) = Some (Some 3))
   /\ (exists st, call until_null_prog 200 [] [] = MDone st /\ assocN 0%N (users st) = Some (Some 1)).
 Proof. split; eexists; vm_compute; split; reflexivity. Qed.
+
+(* BEGIN DECLARE v0 INT DEFAULT 1; l1: REPEAT BEGIN DECLARE v0 INT DEFAULT 2; IF 1 THEN ITERATE l1; END IF; END; UNTIL 1 END REPEAT;
+   SET @u0 = v0; END *)
+Definition iterate_repeat_prog : stmt :=
+  blk 0 (SSeq (dcl 0 1)
+        (SSeq (SRepeat 1%N (blk 0 (SSeq (dcl 0 2) (SIf (EConst 1) (itr 1) SSkip))) (EConst 1))
+              (setu 0 (var 0)))).
+
+(* ITERATE of a REPEAT from the first (unrolled) copy of its body is a FORWARD jump to the test; like every forward
+   Goto it does not look at the operation just before its target -- here the ScopeEnd of the block the body ends with *)
+Lemma iterate_repeat_leaks_scope :
+  (exists st, exec 30 iterate_repeat_prog (init_state [] []) = (ONormal, st) /\ assocN 0%N (users st) = Some (Some 1))
+  /\ (exists st, call iterate_repeat_prog 100 [] [] = MDone st /\ assocN 0%N (users st) = Some (Some 2) /\ length (scopes st) = 2%nat).
+Proof. split; eexists; vm_compute; repeat split; reflexivity. Qed.
